@@ -125,3 +125,61 @@ class SingleCone:
         return [z3.Not(z3.Or(gs))] if gs else []
 
 
+
+
+STRUCTURAL = ("p_id", "hh_id", "alter", "kind", "geburtsjahr", "geburtsmonat", "geburtstag")
+
+
+class TemplateCone(SingleCone):
+    """the graph evaluated from root inputs for a small multi-person household template:
+    ids, pointers, ages and child flags are concrete (from _gettsim.synthetic), every other documented
+    input is symbolic per person"""
+
+    def __init__(self, dag, n_adults, n_children, year):
+        from _gettsim.config import TYPES_INPUT_VARIABLES
+        from _gettsim.synthetic import create_synthetic_data
+        import warnings
+        with warnings.catch_warnings():
+            warnings.simplefilter("ignore")
+            df = create_synthetic_data(n_adults=n_adults, n_children=n_children, policy_year=year)
+        df = df[df["hh_id"] == df["hh_id"].iloc[0]].reset_index(drop=True)
+        self.template = df
+        self.n = len(df)
+        self.dag = dag
+        self.frontier, self.syms = {}, {}
+        self.person_syms = [dict() for _ in range(self.n)]
+        for n in dag.graph.nodes:
+            if dag.kind(n) != "input":
+                continue
+            ty = TYPES_INPUT_VARIABLES.get(n)
+            if (n in STRUCTURAL or n.startswith(POINTERS)) and n in df.columns:
+                vals = [x.item() if hasattr(x, "item") else x for x in df[n].tolist()]
+                self.frontier[n] = SymArray([ty(v) for v in vals], ty)
+            elif ty in (float, int, bool):
+                hh_level = n.endswith("_hh") or n == "mietstufe"
+                es = []
+                for i in range(self.n):
+                    s = R.sym_for(f"{n}#{0 if hh_level else i}", ty)
+                    self.syms[f"{n}#{0 if hh_level else i}"] = s
+                    self.person_syms[i][n] = s
+                    es.append(s)
+                self.frontier[n] = SymArray(es, ty)
+            else:
+                self.frontier[n] = None
+        self.cache, self.ctxs = {}, {}
+
+    def valid(self):
+        cs = []
+        for i in range(self.n):
+            cs += validity.inputs(self.person_syms[i], single_person=False)
+        return cs
+
+    def dataframe(self, model):
+        import pandas as pd
+        df = self.template.copy()
+        for n, col in self.frontier.items():
+            if col is None or n in STRUCTURAL or n.startswith(POINTERS):
+                continue
+            vals = [R.model_value(model, x) for x in col.e]
+            df[n] = pd.Series(vals).astype({bool: bool, int: "int64", float: "float64"}[type(vals[0])])
+        return df
